@@ -214,3 +214,105 @@ def _sha1_digest(ip, h, args, kw):
     st.hyps.append(r.wf())
     r.meta = dict(sha1_of=data)
     return r
+
+
+# ----------------------------------------------------------------------------- zlib (C06, C11)
+# Assumed contract (DESIGN 4 C): a raw-deflate compressobj fed p then flush(Z_SYNC_FLUSH) emits a
+# byte string ending in 00 00 FF FF; an inflater whose window is >= the deflater's, fed the same
+# message history (and not at end-of-stream), returns p.  Here the objects only LOG what the code
+# under verification does with them; the contracts then check the log (plumbing obligations).
+def zlog(st, z):
+    return st.ghost.setdefault(('zlog', z.key), [])
+
+
+def zlib_call(ip, f, args, kw):
+    st = ip.st
+    if f is zlib.compressobj:
+        used(ip, 'zlib.compressobj(level, method, wbits): raw deflate stream with window 2^|wbits| (negative wbits); raises for |wbits| outside 9..15')
+        level, method, wbits = (list(args) + [None, None, None])[:3]
+        if wbits is None:
+            raise Unsupported('compressobj without wbits')
+        wb = to_int(wbits)
+        if not st.decide(And(-wb >= 9, -wb <= 15), 'zlib-wbits-ok'):
+            raise PyRaise(ExcVal(ValueError, tag='zlib: invalid initialization option'))
+        z = ExtObj('zcompress', st.fresh_id('zc'))
+        st.ghost[z.key] = dict(wbits=-wb, lock_at_create=_any_lock_held(st))
+        st.ghost.setdefault('zcreated', []).append(z)
+        return z
+    if f is zlib.decompressobj:
+        used(ip, 'zlib.decompressobj(wbits): raw inflate stream with window 2^|wbits|; raises for |wbits| outside 8..15')
+        (wbits,) = args
+        wb = to_int(wbits)
+        if not st.decide(And(-wb >= 8, -wb <= 15), 'zlib-wbits-ok'):
+            raise PyRaise(ExcVal(ValueError, tag='zlib: invalid initialization option'))
+        z = ExtObj('zdecompress', st.fresh_id('zd'))
+        st.ghost[z.key] = dict(wbits=-wb, eof=BoolVal(False))
+        st.ghost.setdefault('zcreated', []).append(z)
+        return z
+    return NOT_HANDLED
+
+
+def _any_lock_held(st):
+    return any(isinstance(v, dict) and v.get('held', 0) > 0 for k, v in st.ghost.items() if isinstance(k, str) and k.startswith('lock'))
+
+
+def _zcompress_compress(ip, z, args, kw):
+    st = ip.st
+    (p,) = args
+    if not ip.is_byteslike(p):
+        raise PyRaise(ExcVal(TypeError, tag='zlib.compress(nonbytes)'))
+    b = ip.bytes_of(p)
+    out = SBytes.sym(st.fresh_id('zout'))
+    st.assume(out.n >= 0)
+    st.hyps.append(out.wf())
+    zlog(st, z).append(('compress', b, out, _any_lock_held(st)))
+    return out
+
+
+def _zcompress_flush(ip, z, args, kw):
+    st = ip.st
+    mode = args[0] if args else zlib.Z_FINISH
+    out = SBytes.sym(st.fresh_id('zflush'))
+    st.hyps.append(out.wf())
+    if mode == zlib.Z_SYNC_FLUSH:
+        st.assume(out.n >= 4, out.at(out.n - 4) == 0, out.at(out.n - 3) == 0, out.at(out.n - 2) == 255, out.at(out.n - 1) == 255)
+    else:
+        st.assume(out.n >= 0)
+    zlog(st, z).append(('flush', mode, out, _any_lock_held(st)))
+    return out
+
+
+def _zdecompress_decompress(ip, z, args, kw):
+    st = ip.st
+    used(ip, 'zlib decompressobj.decompress(data): returns inflated bytes or raises zlib.error')
+    (p,) = args
+    if not ip.is_byteslike(p):
+        raise PyRaise(ExcVal(TypeError, tag='zlib.decompress(nonbytes)'))
+    b = ip.bytes_of(p)
+    may_raise(ip, 'inflate')
+    out = SBytes.sym(st.fresh_id('zinf'))
+    st.assume(out.n >= 0)
+    st.hyps.append(out.wf())
+    g = st.ghost[z.key]
+    g['eof'] = fresh('zeof', B)     # after any input the stream may have reached a BFINAL block
+    zlog(st, z).append(('decompress', b, out))
+    return out
+
+
+_orig_call = call
+
+
+def call(ip, f, args, kw):  # noqa: F811
+    r = _orig_call(ip, f, args, kw)
+    if r is NOT_HANDLED:
+        r = zlib_call(ip, f, args, kw)
+    return r
+
+
+_orig_ext_getattr = ext_getattr
+
+
+def ext_getattr(ip, obj, name):  # noqa: F811
+    if obj.kind == 'zdecompress' and name == 'eof':
+        return ip.st.ghost[obj.key]['eof']
+    return _orig_ext_getattr(ip, obj, name)
